@@ -144,6 +144,29 @@ Definition has_flag (flags f : Z) : bool := negb (Z.land flags f =? 0).
 Definition is_digit_dot (c : Z) : bool := ((48 <=? c) && (c <=? 57)) || (c =? 46).
 Definition count_dots (s : str) : nat := length (filter (fun c => c =? 46) s).
 
+(* ares_inet_pton(AF_INET, name) for a name made of digits and dots (the only names fake_addrinfo
+   hands to it): the decimal branch of ares_inet_net_pton_ipv4.  Octets are decimal numbers
+   (leading zeros allowed, no octal) that may not exceed 255 at any point of their
+   accumulation; a dot must be followed by a digit (no empty octet, no trailing dot, no leading
+   dot); a fifth octet does not fit (EMSGSIZE).  Fewer than four octets are zero-extended (a
+   classful network); with exactly three dots the result has four octets. *)
+Fixpoint pton4_loop (s : str) (tmp : Z) (in_octet : bool) (acc : bin) : option bin :=
+  match s with
+  | [] => if in_octet then (if Nat.ltb (length acc) 4 then Some (acc ++ [tmp]) else None) else None
+  | c :: rest =>
+    if (48 <=? c) && (c <=? 57) then
+      let t := tmp * 10 + (c - 48) in
+      if t >? 255 then None else pton4_loop rest t true acc
+    else if c =? 46 then
+      (if in_octet then (if Nat.ltb (length acc) 4 then pton4_loop rest 0 false (acc ++ [tmp]) else None) else None)
+    else None
+  end.
+Definition inet_pton4 (name : str) : option bin :=
+  match pton4_loop name 0 false [] with
+  | Some l => Some (l ++ repeat 0 (4 - length l))
+  | None => None
+  end.
+
 (* fake_addrinfo: [pton4]/[pton6] are ares_inet_pton(AF_INET/AF_INET6, name).
    With fixes/C13-gai-literal-family.patch: a dotted-quad literal for an AF_INET6 request ends
    the request with ARES_ENOTFOUND. *)
@@ -455,3 +478,13 @@ Definition spec_gai_nodes (hf : hfile) (lookups : list lk) (name : str) (family 
   | Some l => l
   | None => spec_lookup_nodes hf name family port lookups rounds
   end.
+
+(* with the concrete IPv4 parser: which names are literals is decided by the model *)
+Definition getaddrinfo_c (hf : hfile) (lookups : list lk) (name : str) (family : Z) (port : option Z)
+           (flags : Z) (pton6 : option bin) (names_status : Z) (rounds : list round) :=
+  getaddrinfo hf lookups name family port flags (inet_pton4 name) pton6 names_status rounds.
+(* a literal in the sense of the specification: a full dotted quad / an IPv6 address *)
+Definition spec_gai_nodes_c (hf : hfile) (lookups : list lk) (name : str) (family port : Z)
+           (pton6 : option bin) (rounds : list round) : list ai_node :=
+  spec_gai_nodes hf lookups name family port
+    (if forallb is_digit_dot name && Nat.eqb (count_dots name) 3 then inet_pton4 name else None) pton6 rounds.
